@@ -232,12 +232,13 @@ def _worker(args):
 
 
 def write_replay(pid, viol, seed, tier):
-    os.makedirs(os.path.join(HERE, "replays"), exist_ok=True)
+    rdir = os.environ.get("VERIF_REPLAY_DIR") or os.path.join(HERE, "replays")
+    os.makedirs(rdir, exist_ok=True)
     body = {"property": pid, "part": viol["part"], "case": viol["case"], "sub": viol["sub"],
             "shape": viol["shape"], "message": viol["msg"][:4000], "seed": seed, "tier": tier,
             "signature": "%s/%s/%s/%s" % (pid, viol["part"], viol["sub"], viol["shape"])}
     h = case_hash([viol["part"], viol["case"]])
-    path = os.path.join(HERE, "replays", "%s-%s.json" % (pid, h))
+    path = os.path.join(rdir, "%s-%s.json" % (pid, h))
     with open(path, "w") as f:
         json.dump(body, f, indent=1, default=str)
     return path
@@ -271,8 +272,9 @@ def write_evidence(mod, tier, seed, total, per_part, wall, violations, exhaustiv
         "wall_s": round(wall, 2),
         "violations": violations,
     }
-    os.makedirs(os.path.join(HERE, "evidence"), exist_ok=True)
-    path = os.path.join(HERE, "evidence", "%s.json" % pid)
+    evdir = os.environ.get("VERIF_EVIDENCE_DIR") or os.path.join(HERE, "evidence")
+    os.makedirs(evdir, exist_ok=True)
+    path = os.path.join(evdir, "%s.json" % pid)
     tmp = path + ".tmp"
     with open(tmp, "w") as f:
         json.dump(ev, f, indent=1, default=str)
